@@ -33,6 +33,7 @@ static uint8 PAT[256];
 static char g_ctx[64];
 static int  g_kind[8]; /* storage kind of element (ETAG,r): 0 absent/plain, 1 linked, 2 external, 3 compressed */
 static int  g_clen[8]; /* bytes held by a compressed element */
+static int  g_sd0_grown; /* the first data set is unlimited and got records in a later session than the one that created it */
 static void
 viol(const char *sig, const char *fmt, ...)
 {
@@ -523,15 +524,18 @@ verify_file(const char *when)
                     continue;
                 }
                 /* independent: the dataset's vgroup (class Var0.0, same name) has a member with tag 702 (SD) */
-                const fc_dd *dd = NULL;
+                const fc_dd *dd = NULL, *ndg = NULL;
                 for (int i = 0; i < fc.ndd && !dd; i++)
                     if (fc.dd[i].tag == FC_TAG_VG) {
                         fc_vg g;
                         if (fc_vgroup(&fc, &fc.dd[i], &g) == 0) {
                             if (!strcmp(g.name, nm) && !strcmp(g.cls, "Var0.0"))
-                                for (int m = 0; m < g.nvelt; m++)
+                                for (int m = 0; m < g.nvelt; m++) {
                                     if (g.tag[m] == 702)
                                         dd = fc_find(&fc, 702, g.ref[m]);
+                                    if (g.tag[m] == 720)
+                                        ndg = fc_find(&fc, 720, g.ref[m]);
+                                }
                             fc_vg_free(&g);
                         }
                     }
@@ -539,6 +543,49 @@ verify_file(const char *when)
                 long nel = 1;
                 for (int i = 0; i < rk; i++)
                     nel *= dm[i];
+                /* the old-style description of the same data set (NDG -> SDD dimension record, SD data) that the
+                   library stores for readers of the DFSD generation: it must describe the same array */
+                if (ndg) {
+                    long     glen = 0;
+                    int      guns = 0;
+                    uint8_t *gb   = fc_logical_bytes(&fc, ndg, &glen, &guns);
+                    const fc_dd *sdd = NULL;
+                    int          sdref = -1;
+                    for (long q = 0; gb && q + 4 <= glen; q += 4) {
+                        int t = (gb[q] << 8) | gb[q + 1], r = (gb[q + 2] << 8) | gb[q + 3];
+                        if (t == 701)
+                            sdd = fc_find(&fc, 701, (uint16_t)r);
+                        if (t == 702)
+                            sdref = r;
+                    }
+                    if (dd && sdref >= 0 && sdref != dd->ref)
+                        viol("format:object-level:ndg-names-other-data", "%s: SDS '%s': its NDG (720,%u) names data element (702,%d), its Vgroup names (702,%u)", when, nm,
+                             ndg->ref, sdref, dd->ref);
+                    if (sdd) {
+                        long     dlen = 0;
+                        int      duns = 0;
+                        uint8_t *db   = fc_logical_bytes(&fc, sdd, &dlen, &duns);
+                        if (!db || dlen < 2 || dlen < 2 + 4L * ((db[0] << 8) | db[1]))
+                            viol("format:object-level:sdd-short", "%s: SDS '%s': dimension record (701,%u) is %ld bytes", when, nm, sdd->ref, dlen);
+                        else {
+                            int srk = (db[0] << 8) | db[1];
+                            if (srk != rk)
+                                viol("format:object-level:sdd-rank", "%s: SDS '%s': dimension record (701,%u) has rank %d, the data set has rank %d", when, nm, sdd->ref, srk, (int)rk);
+                            else
+                                for (int i = 0; i < rk; i++) {
+                                    long dv = ((long)db[2 + 4 * i] << 24) | (db[3 + 4 * i] << 16) | (db[4 + 4 * i] << 8) | db[5 + 4 * i];
+                                    if (dv != dm[i])
+                                        mc_violation(k == 0 && i == 0 && g_sd0_grown ? "format:object-level:sdd-dimension@records-appended-in-a-later-session"
+                                                                                      : "format:object-level:sdd-dimension",
+                                                     "%s: SDS '%s': dimension record (701,%u) gives %ld for dimension %d, the data set has %d", when, nm, sdd->ref, dv, i,
+                                                     (int)dm[i]);
+                                }
+                            mc_count("sdd_records_compared", 1);
+                        }
+                        free(db);
+                    }
+                    free(gb);
+                }
                 if (dd && nel > 0) {
                     fc_special s;
                     memset(&s, 0, sizeof s);
@@ -916,7 +963,7 @@ apply(const mc_op *op)
             int32 dm[2] = {3, 4}, st[2] = {0, 0}, cn[2] = {3, 4};
             int32 nt = (a0 == 1 || a0 == 5) ? DFNT_FLOAT32 : DFNT_INT16;
             if (a0 == 1)
-                dm[0] = SD_UNLIMITED, cn[0] = 2;
+                dm[0] = SD_UNLIMITED, cn[0] = 1 + g_nsd % 3; /* record counts differ between the unlimited data sets of a file */
             char nm[16];
             snprintf(nm, sizeof nm, "sds%d", g_nsd);
             int32 s = SDcreate(S, nm, nt, 2, dm);
@@ -972,6 +1019,8 @@ apply(const mc_op *op)
             int16 v16[4] = {70, 71, 72, 73};
             float v32[4] = {7.5f, 8.5f, 9.5f, 10.5f};
             rc = SDwritedata(s, st, NULL, cn, nt == DFNT_INT16 ? (VOIDP)v16 : (VOIDP)v32);
+            if (rc != FAIL && SDisrecord(s))
+                g_sd0_grown = 1;
             SDendaccess(s);
             if (SDend(S) == FAIL)
                 return fail_op(op, "SDend");
@@ -1055,6 +1104,7 @@ prologue(void)
     g_ctx[0] = 0;
     memset(g_kind, 0, sizeof g_kind);
     memset(g_clen, 0, sizeof g_clen);
+    g_sd0_grown = 0;
     if (open_session(1))
         return -1;
     if (g_start == 1) {
